@@ -117,7 +117,7 @@ func outOfOrderProbe(c *Case, inc *Inc) {
 
 func init() {
 	Register(&Check{ID: "C08", Level: "exploration",
-		Rule: "one case = one generated workflow with pass-through recorder components (public component API) on the out-port edges of every command process, 1..8 slots and command durations over 6 orders of magnitude so that later tasks often finish first (probe task-finished-out-of-order); the recorded sequence of every edge must equal the order in which the producing input sets were received (reference order for single-upstream ports, per-upstream projection for fan-in). distinct = event-log hash; non-trivial = >=2 tasks and >=1 non-default choice",
+		Rule: "one case = one generated workflow with pass-through recorder components (public component API) on the out-port edges of every command process (other shapes: several sub-stream carriers, FileSplitter parts, IPSelectorSync out-ports, a source listing one file twice, a process with a streamed and an ordinary out-port), 1..8 slots and command durations over 6 orders of magnitude so that later tasks often finish first (probe task-finished-out-of-order); the recorded sequence of every edge must equal the order in which the producing input sets were received (reference order for single-upstream ports, per-upstream projection for fan-in). distinct = event-log hash; non-trivial = >=2 tasks and >=1 non-default choice",
 		Run: func(c *Case) Verdict {
 			var w *WF
 			switch c.Tape.Choose(simrt.StGen, 8, 0) {
@@ -271,7 +271,7 @@ func failureOracle(inc *Inc, ex *Expect, victim *RTask, what string, others ...*
 
 func init() {
 	Register(&Check{ID: "C09", Level: "exploration",
-		Rule: "one case = one generated workflow, one tape-chosen victim task and one failure kind (cmd-exit before / after partial write / after all outputs, cmd-signal at a tape-chosen micro-step, cmd-omit of one declared output, cmd-list: the command is an && list whose middle step fails after the first step wrote all outputs, bad-input: empty parameter value or invalid character in the output path) injected while sibling tasks run under a tape-chosen schedule. Oracle: exit status != 0, RUN-RETURNED marker absent, no output of the victim at its final path, no start event of any transitive dependant, everything else that was finalized is reference-correct. distinct = event-log hash; non-trivial = the fault fired, >=1 other task executed, >=1 non-default choice",
+		Rule: "one case = one generated workflow, one tape-chosen victim task and one failure kind (cmd-exit before / after partial write / after all outputs, cmd-signal at a tape-chosen micro-step, cmd-omit of one declared output, cmd-list: the command is an && list whose middle step fails after the first step wrote all outputs, bad-input: empty parameter value or invalid character in the output path) injected while sibling tasks run under a tape-chosen schedule. Oracle: exit status != 0, RUN-RETURNED marker absent, no output of the victim at its final path, no start event of any transitive dependant, everything else that was finalized is reference-correct; optional history: temp directories removed, same workflow and failure again - the second attempt must stop the same way. distinct = event-log hash; non-trivial = the fault fired, >=1 other task executed, >=1 non-default choice",
 		Run: func(c *Case) Verdict {
 			var w *WF
 			if c.Tape.Choose(simrt.StGen, 8, 0) == 1 {
